@@ -1,8 +1,9 @@
 --------------------------------- MODULE DCE ---------------------------------
 (* Dead-code elimination (property C13), declaratively.
-   A program graph:  ops[o]     = [rem, blk, opn, regs]   rem = would be trivially dead when unused (no terminator,
+   A program graph:  ops[o]     = [rem, rec, eff, blk, opn, regs]   rem = would be trivially dead when unused (no terminator,
                                                            no symbol, no possibly observable effect); opn = defining
-                                                           ops of the operands (0 = block argument)
+                                                           ops of the operands (0 = block argument); rec = 1: the op's
+                                                           effects are those of the ops nested in its regions (all blocks)
                      blocks[b]  = [reg, succ]              successors of the block's terminator
                      regions[r] = [par, first]             parent op (0 = the root region) and entry block
    Visited ops  : ops whose block is reachable from the entry of its region, the region's parent op being
@@ -25,10 +26,17 @@ VisitedOp(g, o, fuel) ==
   /\ (p = 0 \/ (fuel > 0 /\ VisitedOp(g, p, fuel - 1)))
 Visited(g) == {o \in DOMAIN g.ops : VisitedOp(g, o, Len(g.ops))}
 
+\* recursive effects: an op with rec = 1 has an observable effect iff some op nested in any block of its regions has one
+\* (eff = 1: write / unknown effects; pure and read-only ops, also pure terminators and pure symbols, have eff = 0);
+\* it is removable when unused iff it has none.  Other ops: rem as given.
+NestedOps(g, o) == {x \in DOMAIN g.ops : \E k \in DOMAIN g.ops[o].regs : g.blocks[g.ops[x].blk].reg = g.ops[o].regs[k]}
+RECURSIVE NoEff(_, _, _)
+NoEff(g, o, fuel) == IF g.ops[o].rec = 1 THEN fuel > 0 /\ \A x \in NestedOps(g, o) : NoEff(g, x, fuel - 1) ELSE g.ops[o].eff = 0
+Rem(g, o) == IF g.ops[o].rec = 1 THEN NoEff(g, o, Len(g.ops)) ELSE g.ops[o].rem = 1
 Users(g, o) == {u \in DOMAIN g.ops : \E k \in DOMAIN g.ops[u].opn : g.ops[u].opn[k] = o}
 RECURSIVE LiveFrom(_, _)
 LiveFrom(g, S) == LET T == S \cup {o \in Visited(g) : Users(g, o) \cap S # {}} IN IF T = S THEN S ELSE LiveFrom(g, T)
-Live(g) == LiveFrom(g, {o \in Visited(g) : g.ops[o].rem = 0})
+Live(g) == LiveFrom(g, {o \in Visited(g) : ~Rem(g, o)})
 
 RECURSIVE AncLive(_, _, _, _)
 AncLive(g, L, o, fuel) == LET p == g.regions[g.blocks[g.ops[o].blk].reg].par IN
@@ -38,9 +46,14 @@ KeptBlocks(g) == {b \in DOMAIN g.blocks :
                     LET r == g.blocks[b].reg p == g.regions[r].par IN
                     b \in ReachBlocks(g, r) /\ (p = 0 \/ p \in Kept(g))}
 
-\* what the trivial-dead removal of the greedy driver may remove: unused, removable ops (transitively)
+\* ops nested (transitively) in a set of removed ops disappear with them
+RECURSIVE Under(_, _, _)
+Under(g, S, fuel) == IF fuel = 0 THEN S ELSE
+  LET T == S \cup {o \in DOMAIN g.ops : g.regions[g.blocks[g.ops[o].blk].reg].par \in S} IN IF T = S THEN S ELSE Under(g, T, fuel - 1)
+\* what the trivial-dead removal of the greedy driver may remove: removable ops all of whose users are already gone
+\* (removed themselves or nested in a removed op), transitively
 RECURSIVE TrivDead(_, _)
-TrivDead(g, D) == LET T == D \cup {o \in DOMAIN g.ops : g.ops[o].rem = 1 /\ Users(g, o) \subseteq D} IN
+TrivDead(g, D) == LET T == D \cup {o \in DOMAIN g.ops : Rem(g, o) /\ Users(g, o) \subseteq Under(g, D, Len(g.ops))} IN
                   IF T = D THEN D ELSE TrivDead(g, T)
 RemovableByApplier(g) == TrivDead(g, {})
 =============================================================================
